@@ -211,29 +211,6 @@ pub fn gen_history<S: Sut>(seed: u64, cfg: Cfg, sweep: Option<Sweep>) -> Outcome
             go!(Act::Merge { r, s });
         }
     }
-    // merge-law probes over the recorded pool
-    for _ in 0..cfg.laws {
-        let kinds: Vec<u8> = [(mon::LAWS, 0u8), (mon::LAWS, 1), (mon::LAWS, 2), (mon::HYBRID, 3)].iter().filter(|(m, _)| cfg.has(*m)).map(|(_, k)| *k).collect();
-        if kinds.is_empty() {
-            break;
-        }
-        let kind = *rng.pick(&kinds);
-        // bias towards pairwise-incomparable operands and operands with pending removes
-        let mut best = (rng.below(64), rng.below(64), rng.below(64));
-        if !w.pool.is_empty() {
-            for _ in 0..6 {
-                let c = (rng.below(w.pool.len()), rng.below(w.pool.len()), rng.below(w.pool.len()));
-                let (ka, kb, kc) = (w.pool[c.0].1, w.pool[c.1].1, w.pool[c.2].1);
-                let inc = |x: Bits, y: Bits| x & !y != 0 && y & !x != 0;
-                if inc(ka, kb) && (kind != 1 || (inc(kb, kc) && inc(ka, kc))) {
-                    best = c;
-                    break;
-                }
-                best = c;
-            }
-        }
-        go!(Act::Law { kind, i: best.0, j: best.1, k: best.2 });
-    }
     // consistent-cut sweep by observer replicas
     if let Some(sw) = sweep {
         let nops = w.ops.len();
@@ -250,6 +227,33 @@ pub fn gen_history<S: Sut>(seed: u64, cfg: Cfg, sweep: Option<Sweep>) -> Outcome
                         go!(Act::Reset { r: o0, disc });
                         for i in ord {
                             go!(Act::Deliver { r: o0, author: w.author[i], seq: w.seqs[i] });
+                        }
+                    }
+                    if !(sw.merges && cfg.nobs > 1) {
+                        continue;
+                    }
+                    // with several observers: additionally random extensions with merges *between* observers
+                }
+                if sw.merges && cfg.nobs > 1 && S::HAS_MERGE {
+                    // several observers fed *concurrently*, each along its own extension, exchanging their partial
+                    // states at random points (pending removes / orphans travel inside merged states)
+                    for _e in 0..count {
+                        for o in o0..o0 + cfg.nobs {
+                            go!(Act::Reset { r: o, disc });
+                        }
+                        for _ in 0..nops * cfg.nobs * 2 {
+                            let o = o0 + rng.below(cfg.nobs);
+                            let k = w.know[o];
+                            let cands: Vec<usize> = (0..nops).filter(|&i| k >> i & 1 == 0 && w.deliverable_under(disc, k, i)).collect();
+                            if !cands.is_empty() {
+                                let nc: Vec<usize> = cands.iter().cloned().filter(|&i| w.deps[i] & !k != 0).collect();
+                                let i = if !nc.is_empty() && rng.chance(2, 3) { *rng.pick(&nc) } else { *rng.pick(&cands) };
+                                go!(Act::Deliver { r: o, author: w.author[i], seq: w.seqs[i] });
+                            }
+                            if rng.chance(1, 4) {
+                                let s = o0 + rng.below(cfg.nobs);
+                                go!(Act::Merge { r: o, s });
+                            }
                         }
                     }
                     continue;
@@ -291,6 +295,29 @@ pub fn gen_history<S: Sut>(seed: u64, cfg: Cfg, sweep: Option<Sweep>) -> Outcome
                 }
             }
         }
+    }
+    // merge-law probes over the recorded pool (authors' and observers' states, incl. partially fed observers)
+    for _ in 0..cfg.laws {
+        let kinds: Vec<u8> = [(mon::LAWS, 0u8), (mon::LAWS, 1), (mon::LAWS, 2), (mon::HYBRID, 3)].iter().filter(|(m, _)| cfg.has(*m)).map(|(_, k)| *k).collect();
+        if kinds.is_empty() {
+            break;
+        }
+        let kind = *rng.pick(&kinds);
+        // bias towards pairwise-incomparable operands and operands with pending removes
+        let mut best = (rng.below(64), rng.below(64), rng.below(64));
+        if !w.pool.is_empty() {
+            for _ in 0..6 {
+                let c = (rng.below(w.pool.len()), rng.below(w.pool.len()), rng.below(w.pool.len()));
+                let (ka, kb, kc) = (w.pool[c.0].1, w.pool[c.1].1, w.pool[c.2].1);
+                let inc = |x: Bits, y: Bits| x & !y != 0 && y & !x != 0;
+                if inc(ka, kb) && (kind != 1 || (inc(kb, kc) && inc(ka, kc))) {
+                    best = c;
+                    break;
+                }
+                best = c;
+            }
+        }
+        go!(Act::Law { kind, i: best.0, j: best.1, k: best.2 });
     }
     Outcome { script, world: w, viol: None }
 }
